@@ -216,4 +216,20 @@ PROPS = {
                 "non-trivial = rotation happened or a reopen/reset was executed",
         "trusted": ["OS: an open descriptor follows a renamed file; bytes written to an unlinked file are gone"],
     },
+    "C19": {
+        "level_text": "Kernel-checked refinement WITH faults: for every naming scheme/criterion/capacity and every history in which ANY open, rename or write may fail "
+                      "(the Faults argument of every operation is universally quantified), the files hold exactly the records whose own write was performed, in order "
+                      "(faults_stream; no_loss_monotone: nothing written earlier is ever lost); a write that was not performed and a due rotation that did not complete "
+                      "are reported (result err + error event write/logfile; failures_reported), no faults = no errors; the state stays usable under an invariant preserved "
+                      "by every further step (recovers), and a fault-free suffix behaves as the abstract log continued from what the faulty prefix left "
+                      "(resumes_after_faults/resumes_stream). Cleanup faults: only files beyond the limits are removed and a compressed twin holds the data "
+                      "(cleanup_fault_removes_only_old, under NoTwins). Validation: every fault kind injected through cfg-guarded fault points at seeded operations; "
+                      "exact comparison of directory, error-channel event kinds and call results with the model.",
+        "level_note": "Fault points emulate 'the call returned Err(e)' in front of the real call (PermissionDenied); partial effects of a failing OS call itself (short write, "
+                      "half-created gz) are not modelled. Items 1-4 are proved without cleanup; with cleanup the loop-level facts + differential check.",
+        "correspondence": "Flw model with the Faults argument vs the real writer with the fault hook (open/rename/write/remove/gz_create at the n-th call of an operation)",
+        "rule": "seeded histories with a fault on ~20% of the writes and 25% of forced rotations, kinds open/rename/write/remove(0,1)/gz, all namings, cleanup variants; "
+                "ERRS after every write; non-trivial = rotation happened",
+        "trusted": ["fault hook placement (add-only, in front of the fallible call)"],
+    },
 }
